@@ -59,6 +59,13 @@ def random_instruction(w: World, sim, vid: str, rng: random.Random):
     charger = rng.choice(sorted(CHARGERS.keys()))
     if (getattr(w, "queue_scenario", False) or getattr(w, "base_scenario", False)) and rng.random() < 0.9:
         charger = sorted(next(iter(sim.stations.values())).state.keys())[0]
+    if getattr(w, "queue_scenario", False) and kind in ("station", "charge_s") and rng.random() < 0.9:
+        # the station the vehicle stands at (else any), and the plug type that station has
+        sid = rng.choice(stations_here) if (stations_here and rng.random() < 0.8) else rng.choice(sorted(sim.stations.keys()))
+        plug = sorted(sim.stations[sid].state.keys())[0]
+        if kind == "station":
+            return I.DispatchStationInstruction(vid, sid, plug)
+        return I.ChargeStationInstruction(vid, sid, plug)
     if kind == "idle":
         return I.IdleInstruction(vid)
     if kind == "trip":
@@ -293,6 +300,22 @@ def run_history(w: World, rng: random.Random, steps: int, *, p_instr: float = 0.
                 }
             )
             env.reporter.reports = []
+            if not raised and instrs:
+                # independence (C09): which instructions took effect in the phase, and - for one that did
+                # not although nothing before it did - whether it is accepted when applied alone to the
+                # same state (then only another vehicle's rejected instruction can have disturbed it)
+                taken = [sim.applied_instructions.get(i.vehicle_id) is i for i in instrs]
+                alone = []
+                for idx, i in enumerate(instrs):
+                    if not taken[idx] and not any(taken[:idx]):
+                        try:
+                            solo = apply_instructions(pre, env, (i,))
+                            alone.append([idx, solo.applied_instructions.get(i.vehicle_id) is i])
+                        except Exception:
+                            alone.append([idx, False])
+                recs[-1]["taken"] = taken
+                recs[-1]["alone"] = alone
+                env.reporter.reports = []
             # --- update phase ---
             oracle.reset()
             pre = sim
